@@ -169,6 +169,8 @@ package nsqd
 //@   ensures[is-new] result1 == !old(has(t.channelMap, channelName))
 //@   ensures[existing-kept] old(has(t.channelMap, channelName)) ==> result0 == old(t.channelMap[channelName])
 //@   ensures[named] !old(has(t.channelMap, channelName)) ==> result0.name == channelName && result0.topicName == t.name
+//   (round 7) a channel created here deletes itself through the closure defined here (which removes it from THIS topic: getOrCreateChannel$1, zz_contracts_r7_verif.go)
+//@   ensures[new-channel-deletes-through-its-topic] !old(has(t.channelMap, channelName)) ==> fnname(result0.deleteCallback) == "(*github.com/nsqio/nsq/nsqd.Topic).getOrCreateChannel$1"
 //@   ensures[others] forall k string :: {t.channelMap[k]} k != channelName ==> (has(t.channelMap, k) <==> old(has(t.channelMap, k))) && t.channelMap[k] == old(t.channelMap[k])
 //@   ensures[values] forall k string :: {t.channelMap[k]} has(t.channelMap, k) ==> lChanUsable(t.channelMap[k])
 //@   modifies mapstore(map[string]*Channel), dqCalls, kNotifies, kInitPQs, mapstore(map[MessageID]*Message), mapstore(map[MessageID]*pqueue.Item), Message.index, elems(*Message), elems(*pqueue.Item)
@@ -220,6 +222,8 @@ package nsqd
 //@   ensures[lookup-when-peers] !atlock(has(n.topicMap, topicName)) && n.isLoading != 1 && len(luAddrs) > 0 ==> luCount == old(luCount) + 1 && luTopic == topicName
 //@   ensures[channels-before-start] startCount != old(startCount) && luCount != old(luCount) && result == watchTopic ==>
 //@        (forall k int :: {luNames[k]} 0 <= k && k < len(luNames) && luNames[k] == watchName && !isEph(watchName) ==> startSawWatch)
+//   (round 7) a topic created here deletes itself through the closure defined here (GetTopic$1: DeleteExistingTopic of its own name, zz_contracts_r7_verif.go)
+//@   ensures[new-topic-deletes-through-the-daemon] !atlock(has(n.topicMap, topicName)) ==> fnname(result.deleteCallback) == "(*github.com/nsqio/nsq/nsqd.NSQD).GetTopic$1"
 //   (GetChannel calls are only ever added; SUB's loop invariants count them)
 //@   ensures[getchan-monotone] lGetChanCalls >= old(lGetChanCalls)
 //@   modifies n.topicMap, mapstore(map[string]*Topic), Topic.channelMap, mapstore(map[string]*Channel),
